@@ -170,6 +170,17 @@ PROPS["C13"] = {
     "explanation": "ADM partitioning soundness", "assumptions": [],
 }
 
+PROPS["C14"] = {
+    "modules": ["harness.c14"], "level": "model_checking", "design_ref": "DESIGN.md 2/C14",
+    "level_text": "merge_adm / unmerge_adm / _update_node_delegations of the Neo4j CBM class run as the same function objects on a hybrid class over the in-memory "
+                  "shared store; families of 2-3 delegation models are generated from symbolic stitching choices (which node of which model is the same node, "
+                  "which side carries the delegation) and every merge order, unmerge of the last merge and snapshot/rollback are compared with the union oracle "
+                  "and with each other on a canonical snapshot.",
+    "level_note": XH_NOTE + " APOC mergeNodes is replaced by the NetworkX merge_nodes. Canonical form: adm_graph_ids compared as a set, an empty delegation "
+                  "property equals an absent one. Symbolic choices are resolved by solver-decided forks, then the merge code runs with tracing off.",
+    "explanation": "CBM merge/unmerge", "assumptions": ["Neo4jADMGraph bound to NetworkXADMGraph inside fim.graph.resources.neo4j_cbm"],
+}
+
 NOT_APPLICABLE = {
     "C01": "every value on the GraphML/JSON text path crosses expat/lxml/json C code and temp files, where a symbolic value is "
            "concretised; what remains would be concrete sampling, i.e. a different technique (store-level half is decided under C04/C20)",
